@@ -26,7 +26,7 @@ hfin new int|gen|genshared nx ny vx vy cn2 L0 seed | hfin evolve t | reset b | s
         cells=N [shown=pos|cn2|L0|cx|cy after read]            (heap model with lazy noise and cached screen)
 hinf new int|gen|genshared nx ny dx dy vx vy cn2 L0 seed | hinf evolve t | evolveq t | reset b | set… | cdraw n
       → the `inf` answer of the view + caller= al= cells=
-elements 0|1 [h…]                                              → ok L2,P3/2,L0,…   `calculate_propagators` for the layer heights (err index: no layer)
+elements 0|1 [h…]                                              → ok L2,P3/2,L0,… order=[2,0,…] sum=S   `calculate_propagators` for the layer heights (err index: no layer)
 atm new 0|1 [h…] | atm setlayers [h…] | atm setscint 0|1 | atm seth j h | atm prop | atm calc
       → ok dirty=0|1 scint=0|1 el=L2,P3/2,…                    the `_dirty` flag and the element list of `MultiLayerAtmosphere`
 mla begin | mla addfin nx ny vx vy cn2 L0 seed | mla addinf nx ny dx dy vx vy cn2 L0 seed (→ ok n) | mla build |
@@ -129,17 +129,28 @@ def atmOp (st : St) (o : AOp) : St × String :=
   | some A => let A := A.step o; ({ st with atm := some A }, showAtm A)
   | none => (st, "bad-op")
 
-/-- a short fingerprint of the symbolic screen: start, history code and element of every sample, in place -/
+def parHash (p : Par) : Nat := p.cn2.num.natAbs * 31 + p.cn2.den * 17 + p.L0.num.natAbs * 13 + p.L0.den
+
+/-- a short fingerprint of the symbolic screen: start, history code, element, parameters and logged parameter changes of
+every sample, in place -/
 def symHash (l : List Sym) : Nat :=
-  l.foldl (fun h s => (h * 1000003 + (s.start * 7919 + s.hist * 104729 + s.j + 1)) % 2305843009213693951) 0
+  l.foldl (fun h s =>
+    let q := s.plog.foldl (fun a e => (a * 1009 + e.1 * 7 + parHash e.2) % 2305843009213693951) (parHash s.par)
+    (h * 1000003 + (s.start * 7919 + s.hist * 104729 + s.j + 1 + q * 15485863)) % 2305843009213693951) 0
 
-def showAny : AnyL → String
-  | .fin L => "F " ++ showFin L
-  | .inf L => "I " ++ showInfQ L ++ s!" scr={symHash L.screen}"
+/-- bookkeeping of the layer, and — from its `view`, what `phase_for` is a function of — a fingerprint of the screen -/
+def showAny (a : AnyL) (v : Sum (Rng × Par × V2) (List Sym × V2)) : String :=
+  (match a with
+   | .fin L => "F " ++ showFin L
+   | .inf L => "I " ++ showInfQ L) ++
+  (match v with
+   | .inl (n, p, c) => s!" shown={n.pos}|{showRat p.cn2}|{showRat p.L0}|{showRat c.1}|{showRat c.2}"
+   | .inr (scr, sub) => s!" scr={symHash scr} vsub={showV2 sub}")
 
-def showMLA (A : MLA) (ok : Bool) : String :=
-  (if ok then "ok" else "err value") ++ s!" t={showRat A.t} total={showRat (totalCn2 A.layers)}" ++
-  String.join (A.layers.map fun a => " ;; " ++ showAny a)
+/-- the answer is printed from the `view` (for an operation: the one `MLA.screens` yields for it) -/
+def showMLA (A : MLA) (v : List (Sum (Rng × Par × V2) (List Sym × V2)) × Rat) (ok : Bool) : String :=
+  (if ok then "ok" else "err value") ++ s!" t={showRat v.2} total={showRat (totalCn2 A.layers)}" ++
+  String.join ((A.layers.zip v.1).map fun av => " ;; " ++ showAny av.1 av.2)
 
 def mlaOp (st : St) (o : MOp) (old : Bool := false) : St × String :=
   match st.mla with
@@ -151,15 +162,19 @@ def mlaOp (st : St) (o : MOp) (old : Bool := false) : St × String :=
         | none => false
       | .direct j _ => j < A.layers.length
       | _ => true
-    let A := if old then A.stepOld o else A.step o
-    ({ st with mla := some A }, showMLA A ok)
+    let A' := if old then A.stepOld o else A.step o
+    let v := if old then A'.view else (A.screens [o]).headD A'.view
+    ({ st with mla := some A' }, showMLA A' v ok)
   | none => (st, "bad-op")
 
 def step (st : St) : List String → St × String
   | ["reset"] => ({}, "ok")
   | ["elements", s, hs] =>
     match parseBool? s, parseRatList? hs with
-    | some s, some hs => if hs.isEmpty then (st, "err index") else (st, "ok " ++ showEls (buildElements s hs))
+    | some s, some hs =>
+      if hs.isEmpty then (st, "err index") else
+      let es := buildElements s hs
+      (st, s!"ok {showEls es} order={showNatList (layerOrder es)} sum={showRat (propSum es)}")
     | _, _ => (st, "bad-op")
   | ["atm", "new", s, hs] =>
     match parseBool? s, parseRatList? hs with
@@ -197,7 +212,7 @@ def step (st : St) : List String → St × String
     | _, _, _, _, _, _, _, _, _ => (st, "bad-op")
   | ["mla", "build"] =>
     if st.specs.isEmpty then (st, "err index") else
-    let A := MLA.new st.specs; ({ st with mla := some A }, showMLA A true)
+    let A := MLA.new st.specs; ({ st with mla := some A }, showMLA A A.view true)
   | ["mla", "evolve", t] =>
     match parseRat? t with
     | some t => mlaOp st (.evolve t)
